@@ -4,11 +4,12 @@ func init() {
 	plans["C07"] = Plan{
 		Jobs: []Job{
 			{Workload: "C07.chains", Mode: "plain", QuickB: 16, ThoroughB: 16},
+			{Workload: "C07.scripted", Mode: "plain", QuickB: 3, ThoroughB: 4},
 		},
-		Level: "exploration",
-		Rule: "C07.chains: the C06 chain generator (own PRNG stream) on builder node A and importer node B. After EVERY block the monitor enumerates from the committed tries of A and of B all accounts of the account trie, all validator records of the validator trie, the role/kind statistics and the withdraw queue, and requires: sum of balances + validator Token + unfinished withdraw FinalBalance + role pools + residues + validator RewardsDistributable + in-flight activations (generator ground truth: value of the successful create/deposit/delegation-add txs of the current period) == genesis total. Bucket flows: fees really paid by senders (sum of balances over the address universe sampled on the builder's live state before/after every tx, minus detained value) == header.GasRewards == sum gasUsed*price; skipped txs leave balances untouched; delta rewards pool == -Subsidy + donations; delta PenaltyTo == sum of the slashing logs' totals; withdraw records only move unfinished->finished, at period ends, when mature, once, FinalBalance shrinking only in slashing blocks. Known leaks are predicted exactly (forced-settlement share from the pre-block state + header; rewards of validators deleted while empty, observed between EndBlock and the flush; gas refunds still credited as fees, measured per tx) and excused only when the observed discrepancy equals the prediction to the last LU; the expected total is then rebased. distinct_nontrivial = distinct (scenario, tx kind:outcome set, features: forced/matured/refund/inactive/doublesign/penalty-from-withdraw/recovered/pool-dry/...) signatures.",
+		Level:       "exploration",
+		Rule:        "C07.chains: the C06 chain generator (own PRNG stream) on builder node A and importer node B. After EVERY block the monitor enumerates from the committed tries of A and of B all accounts of the account trie, all validator records of the validator trie, the role/kind statistics and the withdraw queue, and requires: sum of balances + validator Token + unfinished withdraw FinalBalance + role pools + residues + validator RewardsDistributable + in-flight activations (generator ground truth: value of the successful create/deposit/delegation-add txs of the current period) == genesis total. Bucket flows: fees really paid by senders (sum of balances over the address universe sampled on the builder's live state before/after every tx, minus detained value) == header.GasRewards == sum gasUsed*price; skipped txs leave balances untouched; delta rewards pool == -Subsidy + donations; delta PenaltyTo == sum of the slashing logs' totals; withdraw records only move unfinished->finished, at period ends, when mature, once, FinalBalance shrinking only in slashing blocks. Known leaks are predicted exactly (forced-settlement share from the pre-block state + header; rewards of validators deleted while empty, observed between EndBlock and the flush; gas refunds still credited as fees, measured per tx) and excused only when the observed discrepancy equals the prediction to the last LU; the expected total is then rebased. distinct_nontrivial = distinct (scenario, tx kind:outcome set, features: forced/matured/refund/inactive/doublesign/penalty-from-withdraw/recovered/pool-dry/...) signatures.",
 		Explanation: "held = on the executions of this run the conservation equation and every bucket-flow equality held after every block on both nodes (apart from exactly predicted known findings)",
 		Assumptions: []string{"contracts of the workload never burn value (SELFDESTRUCT beneficiary is the caller)", "in-flight value is the generator's ground truth, not the staking records' FinalValue", "protocol version 5 parameters of network 99"},
-		Require:     map[string]int64{"blocks_built": 4000, "blocks_balanced": 4000, "importer_states_checked": 4000, "periods_crossed": 250, "forced_settlements": 10, "withdrawals_matured": 20, "slashings_inactivity": 10, "blocks_with_subsidy": 500, "withdraw_records_created": 50},
+		Require:     map[string]int64{"blocks_built": 4000, "blocks_balanced": 4000, "importer_states_checked": 4000, "periods_crossed": 250, "forced_settlements": 10, "withdrawals_matured": 20, "slashings_inactivity": 10, "blocks_with_subsidy": 500, "withdraw_records_created": 50, "refunds_stk.dlgadd": 20, "slashings_doublesign": 10, "penalties_hitting_withdraw_records": 5, "expulsions_recovered": 5},
 	}
 }
